@@ -47,7 +47,8 @@ def gen_case(rng, i):
     elif fam == "infeasible_left_disconnected":
         # the left side is unsatisfiable, but only in variables that nothing links to the right side's: it still refines everything
         k = rng.choice([1, 2])
-        bad = [({"q": 1}, 0), ({"q": -1}, -k)] if rng.random() < 0.6 else [({"q": 1, "r": 1}, 0), ({"q": -1, "r": -1}, -k)]
+        r_ = rng.random()
+        bad = [({"q": 1}, 0), ({"q": -1}, -k)] if r_ < 0.4 else ([({"q": 1, "r": 1}, 0), ({"q": -1, "r": -1}, -k)] if r_ < 0.7 else [({}, -k)])   # or a row without variables: 0 <= -k
         Ld = L + bad
         rng.shuffle(Ld)
         c.update(L=Ld, R=gen.rlist_raw(rng, vs, 1, 2) if rng.random() < 0.7 else [weakened(rng.choice(L), -3)])
@@ -106,6 +107,14 @@ def gen_case(rng, i):
             else:
                 ra = a1[0]
                 c2 = {"inv": list(inv), "outv": list(outv), "a": [ra, ({v: -x for v, x in ra[0].items()}, -ra[1] - 1)], "g": list(g1)}
+        elif fam == "contract_itf" and rng.random() < 0.45:
+            # the SAME variables with another split between inputs and outputs: not comparable either
+            if len(outv) > 1 or rng.random() < 0.5:
+                c2 = {"inv": inv + outv[:1], "outv": outv[1:], "a": list(a1), "g": list(g1)}          # an output read as an input on the right
+            else:
+                free = [v for v in inv if not any(v in co for co, _ in a1)]
+                c2 = {"inv": [v for v in inv if v not in free[:1]], "outv": outv + free[:1], "a": list(a1), "g": list(g1)} if free else \
+                     {"inv": inv + outv[:1], "outv": outv[1:], "a": list(a1), "g": list(g1)}
         else:
             c2 = {"inv": inv + ["q"], "outv": list(outv), "a": list(a1), "g": list(g1)} if rng.random() < 0.5 else \
                  {"inv": list(inv), "outv": outv + ["q"], "a": list(a1), "g": list(g1)}
